@@ -169,12 +169,13 @@ class State:
 class Layout:
     """Engine instance: domains + source recognition + path enumeration."""
 
-    def __init__(self, domains, source_of, consts=None, max_paths=4096, helpers=None):
+    def __init__(self, domains, source_of, consts=None, max_paths=4096, helpers=None, method_of=None):
         self.domains = domains  # key -> [Case]
         self.source_of = source_of  # callable(node) -> key or None
         self.consts = consts or {}
         self.max_paths = max_paths
         self.helpers = helpers or {}  # name -> FunctionDef of small module-level helpers that are analysed inline
+        self.method_of = method_of  # (class name, method name) -> FunctionDef: methods of constant record objects are analysed inline
 
     # ---------------------------------------------------------------- helpers
     def case_of(self, st: State, key):
@@ -221,6 +222,8 @@ class Layout:
                 return st.env[node.id]
             if node.id in self.consts:
                 return self.consts[node.id]
+            if node.id == "str":
+                return str
             return Opaque(f"free name {node.id}")
         if isinstance(node, ast.JoinedStr):
             out = AStr()
@@ -277,6 +280,10 @@ class Layout:
             if isinstance(node.slice, ast.Slice) and node.slice.step is None:
                 lo = try_fold(node.slice.lower, self.consts) if node.slice.lower else 0
                 hi = try_fold(node.slice.upper, self.consts) if node.slice.upper else None
+                if node.slice.lower is not None and not isinstance(lo, int):
+                    lo = self.ev(st, node.slice.lower)
+                if node.slice.upper is not None and not isinstance(hi, int):
+                    hi = self.ev(st, node.slice.upper)
                 if not isinstance(lo, int) or (hi is not None and not isinstance(hi, int)):
                     return Opaque(f"dynamic slice {U(node)}")
                 if isinstance(base, (AStr, Src, str)):
@@ -311,6 +318,11 @@ class Layout:
                 st.env[var] = saved
             return out
         if isinstance(node, ast.Attribute):
+            base = self.ev(st, node.value) if isinstance(node.value, ast.Name) else None
+            if isinstance(base, dict) and node.attr in base:
+                return base[node.attr]  # a field of a constant record object (module-level NamedTuple instance ...)
+            if base is str and hasattr(str, node.attr):
+                return getattr(str, node.attr)
             return Opaque(f"attribute {U(node)}")
         if isinstance(node, ast.UnaryOp) and isinstance(node.op, ast.USub):
             v = self.ev(st, node.operand)
@@ -418,6 +430,16 @@ class Layout:
         args = node.args
         if name in self.helpers:
             raise _NeedCall(node)
+        if isinstance(f, ast.Attribute) and isinstance(f.value, ast.Name) and self.method_of is not None:
+            recv = self.ev(st, f.value)
+            if isinstance(recv, dict) and isinstance(recv.get("__class__"), str):
+                if callable(recv.get(f.attr)) and not isinstance(recv.get(f.attr), dict):
+                    fnv = recv[f.attr]
+                    if fnv in (str.ljust, str.rjust, str.center) and len(args) >= 2:
+                        return self._justify(st, fnv.__name__, self.ev(st, args[0]), self.ev(st, args[1]), node)
+                fdef = self.method_of(recv["__class__"], f.attr)
+                if fdef is not None:
+                    raise _NeedCall(node, fdef=fdef, selfobj=recv)
         if name == "str" and len(args) == 1:
             v = self.ev(st, args[0])
             if isinstance(v, (Src, AStr)):
@@ -445,18 +467,14 @@ class Layout:
         meth = None
         if name in ("str.ljust", "str.rjust", "str.center") and len(args) >= 2:
             meth, base, n = name.split(".")[1], self.ev(st, args[0]), try_fold(args[1], self.consts)
+            if not isinstance(n, int):
+                n = self.ev(st, args[1])
         elif isinstance(f, ast.Attribute) and f.attr in ("ljust", "rjust") and len(args) >= 1:
             meth, base, n = f.attr, self.ev(st, f.value), try_fold(args[0], self.consts)
-        if meth is not None:
             if not isinstance(n, int):
-                raise AnalysisError(f"layout: dynamic pad width in {U(node)}")
-            s = self.to_astr(st, base, node)
-            lo, hi = s.width()
-            fsrc = s.single_field()
-            seg = Seg("fld", src=fsrc.src if fsrc else ("<lit>" if s.segs else "<pad>"), clo=lo, chi=hi, wlo=max(lo, n),
-                      whi=max(hi, n), align="l" if meth == "ljust" else "r", case=fsrc.case if fsrc else None,
-                      trunc=fsrc.trunc if fsrc else False, blank_content=not s.segs, spec=fsrc.spec if fsrc else None)
-            return AStr([seg])
+                n = self.ev(st, args[0])
+        if meth is not None:
+            return self._justify(st, meth, base, n, node)
         if isinstance(f, ast.Attribute) and f.attr in ("strip", "lstrip", "rstrip", "upper", "lower"):
             base = self.ev(st, f.value)
             if isinstance(base, (Src, AStr, str)):
@@ -466,6 +484,17 @@ class Layout:
                     return s
                 return AStr([Seg("fld", src="<stripped>", clo=0, chi=hi)])
         return Opaque(f"call {name}")
+
+    def _justify(self, st, meth, base, n, node):
+        if not isinstance(n, int):
+            raise AnalysisError(f"layout: dynamic pad width in {U(node)}")
+        s = self.to_astr(st, base, node)
+        lo, hi = s.width()
+        fsrc = s.single_field()
+        seg = Seg("fld", src=fsrc.src if fsrc else ("<lit>" if s.segs else "<pad>"), clo=lo, chi=hi, wlo=max(lo, n),
+                  whi=max(hi, n), align="l" if meth == "ljust" else "r", case=fsrc.case if fsrc else None,
+                  trunc=fsrc.trunc if fsrc else False, blank_content=not s.segs, spec=fsrc.spec if fsrc else None)
+        return AStr([seg])
 
     # ---------------------------------------------------------------- tests
     def test(self, st: State, node):
@@ -610,14 +639,19 @@ class Layout:
         try:
             return self._step(st, stmt, on_expr)
         except _NeedCall as nc:
-            h = self.helpers[U(nc.node.func)]
+            h = nc.fdef if nc.fdef is not None else self.helpers[U(nc.node.func)]
             params = [a.arg for a in h.args.args]
             sub = State(env={}, refine=dict(st.refine))
+            if nc.fdef is not None:
+                sub.env[params[0]] = nc.selfobj
+                params = params[1:]
             for p_, a_ in zip(params, nc.node.args):
                 try:
                     sub.env[p_] = self.ev(st, a_)
                 except _NeedCall:
                     raise AnalysisError("layout: nested helper calls in one argument list")
+                except _NeedFork as nf:
+                    return self._fork(st, stmt, nf, on_expr)  # a conditional expression in the argument list: fork first, then call
             body = [x for x in h.body if not (isinstance(x, ast.Expr) and isinstance(x.value, ast.Constant))]
             out = []
             for fin in self.run(body, sub, on_expr):
@@ -628,13 +662,16 @@ class Layout:
                 out.extend(self.step(s2, stmt2, on_expr))
             return out
         except _NeedFork as nf:
-            # an IfExp inside an expression: fork on its test and re-run the statement with the chosen arm
-            out = []
-            for s2, val in self.test(st, nf.node.test):
-                repl = nf.node.body if val else nf.node.orelse
-                stmt2 = _replace(stmt, getattr(nf.node, "_boolop", nf.node), repl)
-                out.extend(self.step(s2, stmt2, on_expr))
-            return out
+            return self._fork(st, stmt, nf, on_expr)
+
+    def _fork(self, st, stmt, nf, on_expr):
+        """An IfExp inside an expression: fork on its test and re-run the statement with the chosen arm."""
+        out = []
+        for s2, val in self.test(st, nf.node.test):
+            repl = nf.node.body if val else nf.node.orelse
+            stmt2 = _replace(stmt, getattr(nf.node, "_boolop", nf.node), repl)
+            out.extend(self.step(s2, stmt2, on_expr))
+        return out
 
     def _step(self, st: State, stmt, on_expr):
         if isinstance(stmt, ast.Assign) and len(stmt.targets) == 1 and isinstance(stmt.targets[0], ast.Name):
@@ -692,8 +729,10 @@ class _NeedFork(Exception):
 
 
 class _NeedCall(Exception):
-    def __init__(self, node):
+    def __init__(self, node, fdef=None, selfobj=None):
         self.node = node
+        self.fdef = fdef
+        self.selfobj = selfobj
 
 
 class _ValNode(ast.AST):
